@@ -108,6 +108,17 @@ def gen_construct(r: random.Random, depth: int = 0):
         body = r.choice([".*", "[Ff]+i*LE", "#x", "a b", "\\`q", "it\\`s.*", "\\`quoted\\`/*.py"])
         tok = f"{pre}`{body}`"
         return k, tok, f"__xonsh__.pathsearch({pystr(tok)})", "primary"
+    if k == "pathlit" and r.random() < 0.3:
+        # implicit concatenations that start with a path literal (plain and f-string parts mixed)
+        x, t = r.choice([
+            ("p'/a' pf'/{b}'", "__xonsh__.path_literal(f'/a/{b}')"),
+            ('p"/a" "b"', "__xonsh__.path_literal('/ab')"),
+            ("p'/a' f'/{b}' 'c'", "__xonsh__.path_literal(f'/a/{b}c')"),
+            ("pf'{x}/' f'{y}' 'z'", "__xonsh__.path_literal(f'{x}/{y}z')"),
+            ("pf'{x}' pf'{y}'", "__xonsh__.path_literal(f'{x}{y}')"),
+            ("pr'\\d' 'e'", "__xonsh__.path_literal('\\\\de')"),
+        ])
+        return k, x, t, "primary"
     if k == "pathlit" and r.random() < 0.35:
         pre = r.choice(["pf", "fp", "Pf", "pF"])
         q = r.choice(['"', "'"])
@@ -196,12 +207,13 @@ def gen_block_body(r: random.Random, indent="    "):
             continue
         if t in ("'''multi3", "f'''multi"):
             # strings spanning three or more lines; inner lines keep their own (smaller) indentation
-            inner = r.choice([["two", "three"], ["  two", "", "three"], ["two {y}", "\tthree", "four"]])
+            inner = r.choice([["two", "three"], ["  two", "", "three"], ["two {y}", "\tthree", "four"],
+                              ["two", "three", "{y} field first on its line"], ["two\x0cpage", "three"], ["two\x85next", "three\u2028sep"], ["two", "{y}"]])
             q = "f" if t.startswith("f") else ""
             lead = r.choice(["s = ", "s = ", ""])  # "" : the string is the FIRST token of its line (a docstring)
             lines.append(indent * (1 + level) + f"{lead}{q}\'\'\'one")
             lines.extend(inner)
-            lines.append(r.choice(["", " ", indent * (1 + level)]) + "last\'\'\'" + r.choice(["", " ; after = 1"]))
+            lines.append(r.choice(["", " ", indent * (1 + level), "{y}" if q else "", ""]) + r.choice(["last", "last", ""]) + "\'\'\'" + r.choice(["", " ; after = 1"]))
             continue
         if t in ("'''multi", "a = (1,", "return ["):
             t = {"'''multi": r.choice(["s = '''multi\nline'''", "'''doc\nstring'''", "f'''doc {d}\nstring''' ; e = 1"]), "a = (1,": "a = (1,\n 2)", "return [": "q = [\n]"}[t]
